@@ -812,3 +812,6 @@ impl<T> Queue<T> {
         unsafe { (*self.vec.get()).pop() }
     }
 }
+
+#[cfg(gc_arena_verif)]
+pub(crate) mod verif_hooks;
